@@ -74,6 +74,53 @@ func runC12(p *Prog, r *Report) {
 		q.TokenReleased(R, "protocol/rep.(*context).RecvMsg/recvWait", q.Fn(R, "protocol/rep", "context", "RecvMsg"), "recv.recvWait")
 		q.TokenReleased(R, "protocol/req.(*context).RecvMsg/receiveWait", q.Fn(R, "protocol/req", "context", "RecvMsg"), "recv.receiveWait")
 	}
+	{
+		q := NewQ(p, r)
+		R := "C12.7/refused-dial-leaves-listener-intact"
+		r.Describe(R, "an inproc Dial that fails (no listener, wrong protocol) has not consumed one of the listener's pending accepters: all validation precedes the rendezvous")
+		if f := q.Fn(R, "transport/inproc", "dialer", "Dial"); f.OK() {
+			reach := blockReach(f.fn)
+			bad := ""
+			pops := f.Ev("store", "*.accepters")
+			for _, st := range pops {
+				for _, rt := range f.Ev("return", "") {
+					if len(rt.Args) == 2 && rt.Args[1] != "nil" && CanPrecede(reach, st.In, rt.In) {
+						bad = "the accepter taken at " + p.InstrPos(st.In) + " can be followed by the error return at " + p.InstrPos(rt.In)
+					}
+				}
+			}
+			r.Check(len(pops) >= 1 && bad == "", R, "inproc.Dial", f.Pos(), "no error return after an accepter was taken", "inproc Dial takes a pending accepter from the listener and then fails ("+bad+"): the listener's Accept stays blocked on the consumed accepter and no later dialer is ever served")
+		}
+	}
+	r.Describe("C12.8/E10c", "premise of the allow-listed blocking send under the SUB socket lock: the queue has capacity >= 1")
+	e10Capacity(p, r, "C12.8/E10c", needCapOne, func(dest string) bool { return dest == "protocol/sub.context.recvQ" })
+	{
+		R := "C12.9/only-Close-closes"
+		r.Describe(R, "a transport endpoint's close channel is closed only by its Close method: a failed Listen/Dial/Accept never closes it, so the corrected call can be retried on the same object")
+		n := 0
+		for _, fn := range p.Funcs {
+			rel, _ := p.FuncRel(fn)
+			if !strings.HasPrefix(rel, "transport") {
+				continue
+			}
+			for _, e := range p.Events(fn) {
+				if e.Kind != "close" || len(e.Args) != 1 || !strings.Contains(strings.ToLower(e.Args[0]), "closeq") {
+					continue
+				}
+				// only endpoint objects (listener/dialer), not per-connection pipes
+				if !strings.HasPrefix(e.Args[0], "recv.") && !strings.HasPrefix(e.Args[0], "$l.") && !strings.HasPrefix(e.Args[0], "$d.") {
+					continue
+				}
+				n++
+				root := fn
+				for root.Parent() != nil {
+					root = root.Parent()
+				}
+				r.Check(root.Name() == "Close", R, p.FuncName(fn)+"/close("+e.Args[0]+")", p.InstrPos(e.In), "closed by Close", "the endpoint's close channel is closed outside its Close method: after this path (an error path of Listen/Dial/Accept) the object reports ErrClosed for ever and cannot be retried")
+			}
+		}
+		r.Count("c12.endpoint_close_sites", n)
+	}
 	r.Describe("C12.5/ErrClosed-means-closed", "transports produce ErrClosed only under a test of the object's own closed state: core stops accepting / redialling for good when it sees ErrClosed")
 	errClosedMeansClosed(p, r, "C12.5/ErrClosed-means-closed")
 	r.Floor("C12.5/ErrClosed-means-closed", "c12.errclosed_sites_in_transports", 10)
